@@ -23,11 +23,11 @@ import (
 type Prop struct {
 	ID          string
 	Run         func(c *Ctx)
-	Rule        string   // how cases are enumerated and what makes one non-trivial
-	Assumptions []string // trusted base
+	Rule        string                            // how cases are enumerated and what makes one non-trivial
+	Assumptions []string                          // trusted base
 	Replay      func(c *Ctx, raw json.RawMessage) // re-executes one recorded case
-	Serial      bool     // run in a single worker (the property shards itself or is tiny)
-	Require     []string // counters that must be > 0 after aggregation (vacuity guards); violated = engine error
+	Serial      bool                              // run in a single worker (the property shards itself or is tiny)
+	Require     []string                          // counters that must be > 0 after aggregation (vacuity guards); violated = engine error
 }
 
 var props = map[string]*Prop{}
@@ -192,22 +192,22 @@ func (c *Ctx) Violate(key, what string, replay any) {
 }
 
 type workerDone struct {
-	T           string           `json:"t"`
-	Evals       int64            `json:"evals"`
-	Cases       int64            `json:"cases"`
-	States      int64            `json:"states"`
-	Transitions int64            `json:"transitions"`
-	Execs       int64            `json:"execs"`
-	Nontrivial  int64            `json:"nontrivial"`
-	DedupeCap   bool             `json:"dedupe_cap"`
-	Outcomes    []uint64         `json:"outcomes"`
-	Samples     []any            `json:"samples"`
-	Counters    map[string]int64 `json:"counters"`
+	T           string            `json:"t"`
+	Evals       int64             `json:"evals"`
+	Cases       int64             `json:"cases"`
+	States      int64             `json:"states"`
+	Transitions int64             `json:"transitions"`
+	Execs       int64             `json:"execs"`
+	Nontrivial  int64             `json:"nontrivial"`
+	DedupeCap   bool              `json:"dedupe_cap"`
+	Outcomes    []uint64          `json:"outcomes"`
+	Samples     []any             `json:"samples"`
+	Counters    map[string]int64  `json:"counters"`
 	Notes       map[string]string `json:"notes"`
-	Viols       []*Violation     `json:"viols"`
-	ViolCount   int64            `json:"viol_count"`
-	Exhaustive  bool             `json:"exhaustive"`
-	EngineErrs  []string         `json:"engine_errs"`
+	Viols       []*Violation      `json:"viols"`
+	ViolCount   int64             `json:"viol_count"`
+	Exhaustive  bool              `json:"exhaustive"`
+	EngineErrs  []string          `json:"engine_errs"`
 }
 
 func newCtx(p *Prop, tier string, seed int64, shard, n int) *Ctx {
